@@ -3,6 +3,7 @@ import NssVerif.Model.Spectra
 import NssVerif.Gen.Src.C12
 import NssVerif.Lemmas.Spectra
 import NssVerif.Lemmas.SpectraModel
+import NssVerif.Lemmas.SpectraLimit
 import Mathlib.Analysis.SpecialFunctions.Pow.Deriv
 import Mathlib.Analysis.SpecialFunctions.Log.Deriv
 import Mathlib.Analysis.SpecialFunctions.Integrals.Basic
@@ -219,14 +220,26 @@ theorem cdfLog_is_cdf {lo hi : ℝ} (h : lo < hi) :
     field_simp
 
 
-/- OPTIONAL, NOT PROVED (design item `index_one_is_limit`): the closed form for index ≠ 1 tends to the
-log-uniform sample as the index tends to 1, so the index-1 branch is the continuous extension:
+/-! ### index 1 is the continuous extension of the closed form -/
 
-theorem index_one_is_limit (lo hi u : ℝ) (h : lo < hi) (hu0 : 0 ≤ u) (hu1 : u ≤ 1) :
-    Filter.Tendsto (fun p => powRaw p lo hi u) (nhdsWithin 1 {1}ᶜ) (nhds (lo + u * (hi - lo)))
+/-- design item `index_one_is_limit`: the closed form for index ≠ 1 tends to the log-uniform sample as the index
+tends to 1 (through values ≠ 1), so the index-1 branch is the continuous extension of the other branch.  It is the
+derivative at m = 0 of m ↦ log₁₀(u·b^m + (1−u)·a^m), which is 0 at m = 0.  No hypothesis is needed: it holds for every
+real `lo`, `hi`, `u` (the argument of the logarithm equals 1 at m = 0, hence is positive near it) — in particular
+for `lo < hi`, `0 ≤ u ≤ 1`. -/
+theorem index_one_is_limit (lo hi u : ℝ) :
+    Filter.Tendsto (fun p => powRaw p lo hi u) (nhdsWithin 1 {1}ᶜ) (nhds (lo + u * (hi - lo))) := by
+  simp only [powRaw_eq]
+  exact tendsto_y_one_sub lo hi u
 
-(It is the derivative at m = 0 of m ↦ log(u·b^m + (1−u)·a^m); not attempted for lack of time.  The index-1 branch
-is justified independently by `index_one` and `cdfLog_is_cdf`: it is the exact inverse CDF of dN/dE ∝ 1/E.) -/
+/-- hence the sample itself (branch selection and clip included) is continuous in the index at index 1,
+for u ∈ [0,1] -/
+theorem sample_tendsto_index_one {lo hi u : ℝ} (h : lo < hi) (hu0 : 0 ≤ u) (hu1 : u ≤ 1) :
+    Filter.Tendsto (fun p => sample p lo hi u) (nhdsWithin 1 {1}ᶜ) (nhds (sample 1 lo hi u)) := by
+  rw [index_one_sample h.le hu0 hu1]
+  refine (index_one_is_limit lo hi u).congr' ?_
+  filter_upwards [self_mem_nhdsWithin] with p hp
+  rw [sample_eq_y hp h hu0 hu1, powRaw_eq]
 
 /-! ### non-vacuity: the default configuration (index 2, bounds [6, 12]) and index 1 satisfy the hypotheses -/
 example : cdf 2 6 12 ((10:ℝ) ^ sample (2:ℝ) 6 12 (1/2)) = 1/2 :=
